@@ -262,6 +262,11 @@ func (in *Interp) bytesEqTerm(a, b []*Term) *Term {
 	if len(a) != len(b) {
 		return in.tt.False
 	}
+	if len(a) >= 28 {
+		if r, ok := in.hashEq(a, b); ok {
+			return r
+		}
+	}
 	r := in.tt.True
 	for i := range a {
 		r = in.tt.And(r, in.tt.Eq(a[i], b[i]))
@@ -349,6 +354,28 @@ func (in *Interp) equalTerm(t types.Type, x, y Value) *Term {
 		return r
 	case *Array:
 		yv := y.(*Array)
+		if len(xv.E) >= 28 && len(xv.E) == len(yv.E) {
+			if _, isT := xv.E[0].(*Term); isT {
+				if _, isT2 := yv.E[0].(*Term); isT2 {
+					xs, ys := make([]*Term, len(xv.E)), make([]*Term, len(yv.E))
+					okAll := true
+					for i := range xv.E {
+						a, ok1 := xv.E[i].(*Term)
+						b, ok2 := yv.E[i].(*Term)
+						if !ok1 || !ok2 {
+							okAll = false
+							break
+						}
+						xs[i], ys[i] = a, b
+					}
+					if okAll {
+						if r, ok := in.hashEq(xs, ys); ok {
+							return r
+						}
+					}
+				}
+			}
+		}
 		var et types.Type
 		if t != nil {
 			if at, ok := t.Underlying().(*types.Array); ok {
